@@ -105,88 +105,8 @@ func runC05(c *Ctx) {
 		}
 	}
 
-	// ---- C05.bounds
-	rule := "C05.bounds"
-	c.R.Rule(rule, "E5 in readBlock: every allocation whose size derives from a header field (both Uint32 fields of the frame header) is reachable only through the false edges of a lower-bound test (< 0) and of an upper-bound test (> constant limit) of that size; the limits do not exceed the documented 128 MiB")
-	func() {
-		if len(sizes) < 2 {
-			c.R.Unk(rule, core.FuncName(rb), cfg, p.Pos(rb.Pos()), sprintf("%d header size fields found, expected 2", len(sizes)))
-			return
-		}
-		nSink := 0
-		for _, b := range rb.Blocks {
-			for _, in := range b.Instrs {
-				ms, ok := in.(*ssa.MakeSlice)
-				if !ok {
-					continue
-				}
-				for si, sz := range sizes {
-					if !core.DependsOn(ms.Len, func(v ssa.Value) bool { return v == sz }, false) {
-						continue
-					}
-					nSink++
-					key := sprintf("%s/alloc#%d/size#%d", core.FuncName(rb), nSink, si+1)
-					derived := func(v ssa.Value) bool {
-						return core.DependsOn(v, func(x ssa.Value) bool { return x == sz }, false)
-					}
-					limit := int64(0) // largest size any upper-bound test lets through
-					upper := core.CondEdges(rb, false, func(cond ssa.Value) (bool, bool) {
-						bo, ok := cond.(*ssa.BinOp)
-						if !ok {
-							return false, false
-						}
-						if k, okc := core.ConstInt(bo.Y); okc && k > 0 && derived(bo.X) {
-							switch bo.Op {
-							case token.GTR, token.LEQ:
-								if k > limit {
-									limit = k
-								}
-							case token.GEQ, token.LSS:
-								if k-1 > limit {
-									limit = k - 1
-								}
-							}
-							switch bo.Op {
-							case token.GTR, token.GEQ:
-								return true, true
-							case token.LEQ, token.LSS:
-								return false, true
-							}
-						}
-						return false, false
-					})
-					lower := core.CondEdges(rb, false, func(cond ssa.Value) (bool, bool) {
-						bo, ok := cond.(*ssa.BinOp)
-						if !ok {
-							return false, false
-						}
-						if k, okc := core.ConstInt(bo.Y); okc && k == 0 && derived(bo.X) {
-							switch bo.Op {
-							case token.LSS:
-								return true, true
-							case token.GEQ:
-								return false, true
-							}
-						}
-						return false, false
-					})
-					switch {
-					case len(upper) == 0 || !core.OnlyViaEdges(rb, ms, upper):
-						c.R.Bad(rule, key, cfg, p.Pos(ms.Pos()), "an allocation sized by a frame header field is reachable without an upper-bound check: a corrupted or hostile frame requests up to 4 GiB")
-					case len(lower) == 0 || !core.OnlyViaEdges(rb, ms, lower):
-						c.R.Bad(rule, key, cfg, p.Pos(ms.Pos()), "an allocation sized by a frame header field is reachable without a `< 0` check (the size is int(uint32) minus a constant, and int is 32 bits on the pure-Go targets): make() panics")
-					case limit > 128<<20:
-						c.R.Bad(rule, key, cfg, p.Pos(ms.Pos()), sprintf("the upper-bound test lets a header size of %d through: the documented limit for frame sizes is 128 MiB (%d)", limit, 128<<20))
-					default:
-						c.R.Ok(rule, key, cfg, p.Pos(ms.Pos()), sprintf("0 <= size <= %d (documented 128 MiB) on every path to the allocation", limit))
-					}
-				}
-			}
-		}
-		if nSink < 2 {
-			c.R.Unk(rule, core.FuncName(rb)+"/sinks", cfg, p.Pos(rb.Pos()), sprintf("%d header-sized allocations found", nSink))
-		}
-	}()
+	ruleFrameBounds(c, p, "C05.bounds")
+	rule := ""
 
 	// ---- C05.verify
 	rule = "C05.verify"
@@ -535,6 +455,7 @@ func runC05(c *Ctx) {
 	// ---- C05.frame
 	ruleFrameLayout(c, p, "C05.frame", rb, wr)
 	ruleReaderSource(c, p, "C05.source")
+	ruleReadFull(c, p, "C05.readfull")
 	c.R.Assumptions = append(c.R.Assumptions,
 		"CityHash128 detects single-byte alterations; lz4 / zstd decompress what they compressed (third-party codecs, not analysed)",
 		"decided: bounds before allocation, verification before use and on every success path, error content, exhausted-after-failure typestate, refill condition, no aliasing of raw and data, frame layout agreement of writer and reader; not decided: decompress(compress(x)) = x")
@@ -801,4 +722,131 @@ func ruleMethodTable(c *Ctx, p *core.Program, rule string) {
 		}
 	}
 	c.R.Floor(rule, cfg, n, 4)
+}
+
+// noDecrease: v is `checked` itself or derives from it only through conversions and
+// additions of non-negative constants, so `checked >= 0` implies `v >= 0`.
+func noDecrease(v, checked ssa.Value, d int) bool {
+	if v == checked {
+		return true
+	}
+	if d > 6 {
+		return false
+	}
+	switch x := v.(type) {
+	case *ssa.Convert:
+		return noDecrease(x.X, checked, d+1)
+	case *ssa.ChangeType:
+		return noDecrease(x.X, checked, d+1)
+	case *ssa.BinOp:
+		if k, ok := core.ConstInt(x.Y); ok {
+			if x.Op == token.ADD && k >= 0 || x.Op == token.SUB && k <= 0 {
+				return noDecrease(x.X, checked, d+1)
+			}
+		}
+	case *ssa.Phi:
+		for _, e := range x.Edges {
+			if !noDecrease(e, checked, d+1) {
+				return false
+			}
+		}
+		return len(x.Edges) > 0
+	}
+	return false
+}
+
+// ruleFrameBounds (C05.bounds / C06.frame): header sizes are range-checked before they size an allocation.
+func ruleFrameBounds(c *Ctx, p *core.Program, rule string) {
+	cfg := p.Cfg.Name
+	rb := p.Method(core.PkgCompress, "Reader", "readBlock")
+	if !c.must(p, "compress.(*Reader).readBlock", rb != nil) {
+		return
+	}
+	var sizes []ssa.Value
+	for _, call := range core.FindCalls(rb, isLEUint("Uint32")) {
+		if v, ok := call.(*ssa.Call); ok {
+			sizes = append(sizes, v)
+		}
+	}
+	c.R.Rule(rule, "E5 in readBlock: every allocation whose size derives from a header field (both Uint32 fields of the frame header) is reachable only through the false edges of a lower-bound test (< 0) and of an upper-bound test (> constant limit) of that size; the limits do not exceed the documented 128 MiB")
+	func() {
+		if len(sizes) < 2 {
+			c.R.Unk(rule, core.FuncName(rb), cfg, p.Pos(rb.Pos()), sprintf("%d header size fields found, expected 2", len(sizes)))
+			return
+		}
+		nSink := 0
+		for _, b := range rb.Blocks {
+			for _, in := range b.Instrs {
+				ms, ok := in.(*ssa.MakeSlice)
+				if !ok {
+					continue
+				}
+				for si, sz := range sizes {
+					if !core.DependsOn(ms.Len, func(v ssa.Value) bool { return v == sz }, false) {
+						continue
+					}
+					nSink++
+					key := sprintf("%s/alloc#%d/size#%d", core.FuncName(rb), nSink, si+1)
+					derived := func(v ssa.Value) bool {
+						return core.DependsOn(v, func(x ssa.Value) bool { return x == sz }, false)
+					}
+					limit := int64(0) // largest size any upper-bound test lets through
+					upper := core.CondEdges(rb, false, func(cond ssa.Value) (bool, bool) {
+						bo, ok := cond.(*ssa.BinOp)
+						if !ok {
+							return false, false
+						}
+						if k, okc := core.ConstInt(bo.Y); okc && k > 0 && derived(bo.X) {
+							switch bo.Op {
+							case token.GTR, token.LEQ:
+								if k > limit {
+									limit = k
+								}
+							case token.GEQ, token.LSS:
+								if k-1 > limit {
+									limit = k - 1
+								}
+							}
+							switch bo.Op {
+							case token.GTR, token.GEQ:
+								return true, true
+							case token.LEQ, token.LSS:
+								return false, true
+							}
+						}
+						return false, false
+					})
+					lower := core.CondEdges(rb, false, func(cond ssa.Value) (bool, bool) {
+						bo, ok := cond.(*ssa.BinOp)
+						if !ok {
+							return false, false
+						}
+						if k, okc := core.ConstInt(bo.Y); okc && k == 0 && derived(bo.X) && noDecrease(ms.Len, bo.X, 0) {
+							switch bo.Op {
+							case token.LSS:
+								return true, true
+							case token.GEQ:
+								return false, true
+							}
+						}
+						return false, false
+					})
+					switch {
+					case len(upper) == 0 || !core.OnlyViaEdges(rb, ms, upper):
+						c.R.Bad(rule, key, cfg, p.Pos(ms.Pos()), "an allocation sized by a frame header field is reachable without an upper-bound check: a corrupted or hostile frame requests up to 4 GiB")
+					case len(lower) == 0 || !core.OnlyViaEdges(rb, ms, lower):
+						c.R.Bad(rule, key, cfg, p.Pos(ms.Pos()), "an allocation sized by a frame header field is reachable without a `< 0` check of the value that is allocated (a check made before a constant is subtracted does not count; the size is int(uint32) minus a constant, and int is 32 bits on the pure-Go targets): make() panics")
+					case limit > 128<<20:
+						c.R.Bad(rule, key, cfg, p.Pos(ms.Pos()), sprintf("the upper-bound test lets a header size of %d through: the documented limit for frame sizes is 128 MiB (%d)", limit, 128<<20))
+					default:
+						c.R.Ok(rule, key, cfg, p.Pos(ms.Pos()), sprintf("0 <= size <= %d (documented 128 MiB) on every path to the allocation", limit))
+					}
+				}
+			}
+		}
+		if nSink < 2 {
+			c.R.Unk(rule, core.FuncName(rb)+"/sinks", cfg, p.Pos(rb.Pos()), sprintf("%d header-sized allocations found", nSink))
+		}
+	}()
+
 }
